@@ -916,11 +916,21 @@ namespace xsimd
         }
 
         // gather
+        namespace detail
+        {
+            // see the avx2 kernels: 32-bit indices are sign-extended by the instruction, unsigned index types are rebased
+            template <class U>
+            XSIMD_INLINE __m512i rebase_gather_index(__m512i index) noexcept
+            {
+                return std::is_unsigned<U>::value ? _mm512_xor_si512(index, _mm512_set1_epi32(std::numeric_limits<int32_t>::min())) : index;
+            }
+        }
+
         template <class T, class A, class U, detail::enable_sized_integral_t<T, 4> = 0, detail::enable_sized_integral_t<U, 4> = 0>
         XSIMD_INLINE batch<T, A> gather(batch<T, A> const&, T const* src, batch<U, A> const& index,
                                         kernel::requires_arch<avx512f>) noexcept
         {
-            return _mm512_i32gather_epi32(index, static_cast<const void*>(src), sizeof(T));
+            return _mm512_i32gather_epi32(detail::rebase_gather_index<U>(index), static_cast<const void*>(detail::rebase_gather_pointer<U, sizeof(T)>(src)), sizeof(T));
         }
 
         template <class T, class A, class U, detail::enable_sized_integral_t<T, 8> = 0, detail::enable_sized_integral_t<U, 8> = 0>
@@ -935,7 +945,7 @@ namespace xsimd
                                             batch<U, A> const& index,
                                             kernel::requires_arch<avx512f>) noexcept
         {
-            return _mm512_i32gather_ps(index, src, sizeof(float));
+            return _mm512_i32gather_ps(detail::rebase_gather_index<U>(index), detail::rebase_gather_pointer<U, sizeof(float)>(src), sizeof(float));
         }
 
         template <class A, class U, detail::enable_sized_integral_t<U, 8> = 0>
@@ -952,8 +962,10 @@ namespace xsimd
                                             batch<V, A> const& index,
                                             requires_arch<avx512f>) noexcept
         {
-            const batch<double, A> low(_mm512_i32gather_pd(_mm512_castsi512_si256(index.data), src, sizeof(double)));
-            const batch<double, A> high(_mm512_i32gather_pd(_mm256_castpd_si256(_mm512_extractf64x4_pd(_mm512_castsi512_pd(index.data), 1)), src, sizeof(double)));
+            const double* base = detail::rebase_gather_pointer<V, sizeof(double)>(src);
+            const __m512i idx = detail::rebase_gather_index<V>(index.data);
+            const batch<double, A> low(_mm512_i32gather_pd(_mm512_castsi512_si256(idx), base, sizeof(double)));
+            const batch<double, A> high(_mm512_i32gather_pd(_mm256_castpd_si256(_mm512_extractf64x4_pd(_mm512_castsi512_pd(idx), 1)), base, sizeof(double)));
             return detail::merge_avx(_mm512_cvtpd_ps(low.data), _mm512_cvtpd_ps(high.data));
         }
 
@@ -962,8 +974,10 @@ namespace xsimd
                                               batch<V, A> const& index,
                                               requires_arch<avx512f>) noexcept
         {
-            const batch<double, A> low(_mm512_i32gather_pd(_mm512_castsi512_si256(index.data), src, sizeof(double)));
-            const batch<double, A> high(_mm512_i32gather_pd(_mm256_castpd_si256(_mm512_extractf64x4_pd(_mm512_castsi512_pd(index.data), 1)), src, sizeof(double)));
+            const double* base = detail::rebase_gather_pointer<V, sizeof(double)>(src);
+            const __m512i idx = detail::rebase_gather_index<V>(index.data);
+            const batch<double, A> low(_mm512_i32gather_pd(_mm512_castsi512_si256(idx), base, sizeof(double)));
+            const batch<double, A> high(_mm512_i32gather_pd(_mm256_castpd_si256(_mm512_extractf64x4_pd(_mm512_castsi512_pd(idx), 1)), base, sizeof(double)));
             return detail::merge_avx(_mm512_cvttpd_epi32(low.data), _mm512_cvttpd_epi32(high.data));
         }
 
